@@ -624,6 +624,96 @@ fn check_list(mt: &MType, arms: &[&Pat], cnt: &Cnt, coll: &Collector) {
     }
 }
 
+/// Range patterns as TEXT: every `a<sa>..b<sb>` / `a<sa>..=b<sb>` over boundary numbers and suffixes
+/// (equal, different, absent) in a match on each scrutinee type. A pattern whose suffix is not the
+/// scrutinee's type or whose end points are not values of that type must be refused (type error or
+/// parse error - never accepted); an accepted one must select exactly the values lo..=hi (checked on
+/// every value of the 8-bit types, on the end points and their neighbours otherwise).
+fn range_text_sweep(tier: Tier, budget: &Budget, coll: &Collector) -> serde_json::Value {
+    let nums: &[i128] = &[0, 1, 5, 127, 128, 255, 256, -1, -5, -128, -129, i64::MAX as i128, i64::MIN as i128, u64::MAX as i128];
+    let sufs: &[Option<IntTy>] = if tier == Tier::Quick { &[None, Some(IntTy::U8), Some(IntTy::I8), Some(IntTy::I16)] } else { &[None, Some(IntTy::U8), Some(IntTy::I8), Some(IntTy::I16), Some(IntTy::U64), Some(IntTy::I64), Some(IntTy::Usize)] };
+    let tys: &[IntTy] = if tier == Tier::Quick { &[IntTy::U8, IntTy::I8, IntTy::I64] } else { &[IntTy::U8, IntTy::I8, IntTy::U64, IntTy::I64, IntTy::Usize, IntTy::U16, IntTy::I16] };
+    struct J {
+        ty: IntTy,
+        a: i128,
+        b: i128,
+        sa: Option<IntTy>,
+        sb: Option<IntTy>,
+        incl: bool,
+    }
+    let mut jobs = vec![];
+    for ty in tys {
+        for a in nums {
+            for b in nums {
+                for sa in sufs {
+                    for sb in sufs {
+                        for incl in [false, true] {
+                            // a suffixed number beyond its own suffix type does not even scan
+                            jobs.push(J { ty: *ty, a: *a, b: *b, sa: *sa, sb: *sb, incl });
+                        }
+                    }
+                }
+            }
+        }
+    }
+    let accepted = AtomicU64::new(0);
+    let refused = AtomicU64::new(0);
+    let evals = AtomicU64::new(0);
+    let done = par_range(jobs.len(), budget, |i| {
+        let j = &jobs[i];
+        let sfx = |s: Option<IntTy>| s.map(|t| t.name()).unwrap_or("");
+        let pat = format!("{}{}{}{}{}", j.a, sfx(j.sa), if j.incl { "..=" } else { ".." }, j.b, sfx(j.sb));
+        let text = format!("pub fn main(x: {}) -> u8 {{\n  match x {{\n    {pat} => 1u8,\n    _ => 0u8,\n  }}\n}}\n", j.ty.name());
+        let site = format!("R/{}/{}", j.ty.name(), pat);
+        let case = || json!({"kind": "match", "source": text});
+        let hi = if j.incl { j.b } else { j.b - 1 };
+        let must_refuse = j.sa.map(|s| s != j.ty).unwrap_or(false) || j.sb.map(|s| s != j.ty).unwrap_or(false) || !j.ty.fits(j.a) || !j.ty.fits(hi);
+        let cp = match subject::compile(&text, Config { register: false, dedup: true }, HashMap::new()) {
+            CompileOutcome::Ok(p) => p,
+            CompileOutcome::Rejected(_) => {
+                refused.fetch_add(1, Ordering::Relaxed);
+                return;
+            }
+            CompileOutcome::RustPanic(p) => {
+                coll.push(Violation::new("C08", site.clone(), "compile-rust-panic", "", case(), p.clone()));
+                coll.push(Violation::new("C07", site, "rust-panic", "", case(), p));
+                return;
+            }
+        };
+        accepted.fetch_add(1, Ordering::Relaxed);
+        if must_refuse {
+            coll.push(Violation::new("C08", site.clone(), "range-pattern-outside-the-scrutinee-type-accepted", "", case(), format!("{pat} is not a range of {} values", j.ty.name())));
+            coll.push(Violation::new("C17", site, "ill-typed-accepted", "", case(), format!("pattern {pat} does not have the scrutinee's type {}", j.ty.name())));
+            return;
+        }
+        let xs: Vec<i128> = if j.ty.bits() == 8 {
+            (j.ty.min()..=j.ty.max()).collect()
+        } else {
+            let mut v = vec![j.ty.min(), j.ty.max(), 0, -1, 1];
+            for e in [j.a, hi] {
+                v.extend([e - 1, e, e + 1]);
+            }
+            v.retain(|x| j.ty.fits(*x));
+            v.sort();
+            v.dedup();
+            v
+        };
+        for x in xs {
+            evals.fetch_add(1, Ordering::Relaxed);
+            let bits: Vec<bool> = (0..j.ty.bits()).rev().map(|k| (j.ty.wrap(x) as u128 >> k) & 1 == 1).collect();
+            let real = subject::eval(&cp.circuit, &[bits]);
+            let exp_hit = j.a <= x && x <= hi;
+            let exp: Vec<bool> = (0..8).map(|k| k == 7 && exp_hit).collect();
+            if real != RealOutcome::Value(exp) {
+                coll.push(Violation::new("C08", site.clone(), "range-arm-selects-other-values", format!("x={x}"), case(), format!("expected arm {}, got {real:?}", if exp_hit { "1 (in range)" } else { "0 (outside)" })));
+                break;
+            }
+        }
+    });
+    json!({"programs": jobs.len(), "done": done, "accepted": accepted.load(Ordering::Relaxed), "refused": refused.load(Ordering::Relaxed), "evaluations": evals.load(Ordering::Relaxed),
+        "rule": "every range pattern a<sa>..b<sb> and a<sa>..=b<sb> as text over 14 boundary numbers x suffixes (absent, the scrutinee's, others) for each scrutinee type; suffix or end point outside the scrutinee type => must be refused; accepted => selects exactly lo..=hi"})
+}
+
 pub fn run(tier: Tier) -> i32 {
     let start = Instant::now();
     let budget = Budget::new(tier.pick(150.0, 3000.0));
@@ -671,6 +761,8 @@ pub fn run(tier: Tier) -> i32 {
             samples.push(json!({"type": mt.name, "arms": l.iter().map(|k| show_pat(&mt.alphabet[*k])).collect::<Vec<_>>()}));
         }
     }
+    let range_text = range_text_sweep(tier, &budget, &coll);
+    complete &= range_text["done"] == range_text["programs"];
     let report = Report {
         property: "C08".into(),
         tier,
@@ -688,6 +780,7 @@ pub fn run(tier: Tier) -> i32 {
             "lists_with_overlapping_arms": cnt.overlapping.load(Ordering::Relaxed),
             "circuit_evaluations": cnt.evals.load(Ordering::Relaxed),
             "per_type": per,
+            "range_patterns_as_text": range_text,
             "exhaustive": complete && !budget.hit(),
             "wall_cap_hit": budget.hit(),
         }),
